@@ -42,6 +42,23 @@ def R_list(tag):
     return [CL.seg(tag, lambda t: CL.absnode(("R", t), ("R", tagstr(t))))]
 
 
+def prune_zero(c, tr):
+    """drop repetitions whose count is provably zero on this path (recursively)"""
+    out = []
+    for e in tr:
+        if e[0] == "rep":
+            if c13._provably_zero(c, e[1]):
+                continue
+            out.append(("rep", e[1], e[2], e[3], prune_zero(c, e[4])))
+        elif e[0] == "choice":
+            out.append(("choice", e[1], prune_zero(c, e[2]), prune_zero(c, e[3])))
+        elif e[0] == "loop":
+            out.append(("loop", e[1], e[2], e[3], prune_zero(c, e[4])))
+        else:
+            out.append(e)
+    return out
+
+
 def compare(R, name, p, res, want, guarded=False, replay=None, env=None):
     c = p.ctx
     sym.set_ctx(c)
@@ -52,9 +69,8 @@ def compare(R, name, p, res, want, guarded=False, replay=None, env=None):
         except TL.NotInFragment as e:
             R.undecided(name, str(e))
             return None
-        got = TL.observable(ev.tr)
-        got = [g for g in got if not (g[0] == "rep" and c13._provably_zero(c, g[1]))]
-        want = [w for w in want if not (w[0] == "rep" and c13._provably_zero(c, w[1]))]
+        got = prune_zero(c, TL.observable(ev.tr))
+        want = prune_zero(c, want)
         why = []
         ok = pysem.guarded_eq(c, got, want, why) if guarded else pysem.trace_eq(c, got, want, why)
         R.check(name, ok, "; ".join(why)[:500] + "\nlowered:\n" + TL.show(got) + "\nPython:\n" + TL.show(want), replay=replay)
@@ -145,12 +161,14 @@ def mk_function_nsp(node, tag="inner", **over):
 
 def symbolic_arguments():
     a = lambda t: ast.arg(arg=Hole((t, "arg"), "ident"), annotation=CL.src((t, "ann")))
-    KW = CL.seg("KW", a)
+    KW, KW2 = CL.seg("KW", a), CL.seg("KW2", a)
     return ast.arguments(
         posonlyargs=[CL.seg("PO", a)], args=[CL.seg("AR", a)],
         vararg=a("VA") if not ctx().branch(z3.Bool("vararg.is_none")) else None,
-        kwonlyargs=[KW],
-        kw_defaults=[CL.seg("KD", lambda t: Opaque(t, ast.expr, cands=CL.EXPR_LEAVES, none=z3.Bool("KD.is_none")), like=KW)],
+        kwonlyargs=[KW, KW2],
+        # two adjacent runs: with / without a default (their relative order must survive)
+        kw_defaults=[CL.seg("KD", lambda t: Opaque(t, ast.expr, cands=CL.EXPR_LEAVES, none=z3.Bool("KD.is_none")), like=KW),
+                     CL.seg("KD2", lambda t: Opaque(t, ast.expr, cands=CL.EXPR_LEAVES, none=z3.Bool("KD2.is_none")), like=KW2)],
         kwarg=a("KA") if not ctx().branch(z3.Bool("kwarg.is_none")) else None,
         defaults=[CL.seg("DF", lambda t: CL.src(t))])
 
@@ -208,12 +226,19 @@ def g_functiondef(R, tier):
         finally:
             sym.set_ctx(None)
         # --- evaluation order of the definition (Language Reference 8.7)
-        DEC, DF, KD = node.decorator_list[0], a.defaults[0], a.kw_defaults[0]
-        kd_none, _ = c.valid(z3.Bool("KD.is_none"))
+        DEC, DF = node.decorator_list[0], a.defaults[0]
         want = [("rep", DEC.length, DEC.jvar, False, [("ev", "outer", tagstr(DEC.items[0].tag))]),
                 ("rep", DF.length, DF.jvar, False, [("ev", "outer", tagstr(DF.items[0].tag))])]
-        if not kd_none:
-            want.append(("rep", KD.length, KD.jvar, False, [("ev", "outer", tagstr(KD.items[0].tag))]))
+        for KD, flag in zip(a.kw_defaults, ("KD.is_none", "KD2.is_none")):
+            kd_none, _ = c.valid(z3.Bool(flag))
+            if not kd_none:
+                want.append(("rep", KD.length, KD.jvar, False, [("ev", "outer", tagstr(KD.items[0].tag))]))
+        # None holes of kw_defaults stay None holes, in place
+        okh = True
+        for KDs, KDc, flag in zip(a.kw_defaults, ca.kw_defaults, ("KD.is_none", "KD2.is_none")):
+            kd_none, _ = c.valid(z3.Bool(flag))
+            okh = okh and isinstance(KDc, Seg) and TL.term_eq(c, KDc.length, KDs.length) and ((KDc.items[0] is None) == bool(kd_none))
+        R.check(f"{base}.__init__/kw-default-holes-preserved-in-place/{sig}", okh and len(ca.kw_defaults) == len(a.kw_defaults), repr(ca.kw_defaults))
         want.append(("rep", DEC.length, DEC.jvar, True, [("call", ("val", tagstr(DEC.items[0].tag)), "*", ())]))
         want.append(("store", "outer", "f", "*"))
         ev = compare_def(R, f"{base}.get_result/decorators-top-down-defaults-left-to-right-apply-bottom-up-then-bind/{sig}", p, v["res"], want)
@@ -314,7 +339,7 @@ def g_classdef(R, tier):
                 except TL.NotInFragment as e:
                     R.undecided(f"{base}[{meta}]/reading/{sig}", str(e))
                     continue
-                flat = [e for e in c13._flat(TL.observable(ev.tr))]
+                flat = [e for e in c13._flat(prune_zero(c, TL.observable(ev.tr)))]
                 order = [e[2] for e in flat if e[0] == "ev"]
                 # Language Reference 8.8: decorators, then the inheritance list left to right
                 # (bases, then keywords in source order, the metaclass keyword among them)
@@ -332,12 +357,18 @@ def g_classdef(R, tier):
                         exp.append("META")
                 got_no_dec = [x for x in order if x != (tagstr(DEC.items[0].tag))]
                 exp_no_dec = [x for x in exp if x != (tagstr(DEC.items[0].tag))]
-                R.check(f"{base}[{meta}]/bases-then-keywords-in-source-order/{sig}", got_no_dec == exp_no_dec, f"evaluated {order}, Python: {exp}",
+                R.check(f"{base}[{meta}]/decorators-evaluated-before-the-inheritance-list/{sig}",
+                        (order[:1] == exp[:1]) if not c13._provably_zero(c, DEC.length) else True, f"evaluated {order}, Python: {exp}")
+                R.check(f"{base}[{meta}]/bases-then-keywords-in-source-order", got_no_dec == exp_no_dec, f"evaluated {order}, Python: {exp}",
                         replay=dict(kind="src", src="log = []\ndef e(n, v):\n    log.append(n)\n    return v\nclass M(type):\n    def __new__(m, n, b, d, **k):\n        return super().__new__(m, n, b, d)\n    def __init__(c, n, b, d, **k):\n        pass\nclass B: pass\nclass C(e('base', B), x=e('x', 1), metaclass=e('meta', M), y=e('y', 2)):\n    pass\n", expect="same-globals"))
                 if not c13._provably_zero(c, DEC.length):
                     ndec = sum(1 for x in order if x == tagstr(DEC.items[0].tag))
-                    R.check(f"{base}[{meta}]/class-decorators-evaluated-and-applied/{sig}", ndec == 1,
-                            f"decorator expressions evaluated {ndec} times: class decorators are dropped from the output",
+                    top = TL.observable(ev.tr)
+                    applied = [e for e in top if e[0] == "rep" and e[3] is True and e[4] and e[4][0][0] == "call"
+                               and TL.term_eq(c, e[4][0][1], ("val", tagstr(DEC.items[0].tag)))]
+                    rebound = bool(top) and top[-1][0] == "store" and top[-1][2] == "C"
+                    R.check(f"{base}[{meta}]/class-decorators-evaluated-and-applied/{sig}", ndec == 1 and len(applied) == 1 and rebound,
+                            f"decorator expressions evaluated {ndec} times, applied bottom-up {len(applied)} times, class name rebound last: {rebound}",
                             replay=dict(kind="src", src="def deco(c):\n    c.tag = 1\n    return c\n@deco\nclass C:\n    pass\nr = getattr(C, 'tag', None)\n", expect="same-globals"))
                 # each sub-expression exactly once, in the defining scope
                 scopes = {e[1] for e in flat if e[0] == "ev"}
@@ -346,8 +377,70 @@ def g_classdef(R, tier):
                 sym.set_ctx(None)
 
 
+def g_assign_statement(R, tier):
+    """whole assignment statement with the REAL assign_auto / leaf handlers: the value is
+    evaluated first, then the target expressions left to right (Language Reference 7.2)"""
+    pn = CL.pn()
+    base = "pending_nodes.PendingAssign.get_result"
+    shapes = {
+        "name": (lambda: ast.Name(id=Hole("x", "ident"), ctx=ast.Store()), [("store", "nsp", ("id", "x"), ("val", "V"))]),
+        "attribute": (lambda: ast.Attribute(value=CL.src("obj"), attr=Hole("a", "ident"), ctx=ast.Store()),
+                      [("ev", "nsp", "obj"), ("setattr", ("val", "obj"), ("const", ("str", ("id", "a"))), ("val", "V"))]),
+        "subscript": (lambda: ast.Subscript(value=CL.src("obj"), slice=CL.src("idx", ast.expr, exclude=[ast.Slice]), ctx=ast.Store()),
+                      [("ev", "nsp", "obj"), ("ev", "nsp", "idx"), ("setitem", ("val", "obj"), ("val", "idx"), ("val", "V"))]),
+    }
+    for first, (mk1, w1) in shapes.items():
+        for second, (mk2, w2) in list(shapes.items()) + [("none", (None, []))]:
+            def run(c):
+                m = Machine(stubs=stubs())
+                t1 = mk1()
+                targets = [t1]
+                if mk2 is not None:
+                    t2 = mk2()
+                    # distinct tags for the second target
+                    if isinstance(t2, ast.Name):
+                        t2.id = Hole("y", "ident")
+                    else:
+                        t2.value = CL.src("obj2")
+                        if isinstance(t2, ast.Subscript):
+                            t2.slice = CL.src("idx2", ast.expr, exclude=[ast.Slice])
+                        else:
+                            t2.attr = Hole("b", "ident")
+                    targets.append(t2)
+                node = ast.Assign(targets=targets, value=CL.src("V"))
+                self_ = CL.mk_pending(pn.PendingAssign, node, CL.mk_nsp(), CL.mk_global(), m=m)
+                return dict(res=m.call_value(pn.PendingAssign.get_result, self_))
+            paths = explore(run)
+            nm = f"{base}[{first}{'' if second == 'none' else ',' + second}]"
+            if not paths_or_undecided(R, nm + "/paths", paths):
+                continue
+            ren = lambda tr: [tuple(_ren(x) for x in e) for e in tr]
+            want = [("ev", "nsp", "V")] + list(w1) + (ren(w2) if second != "none" else [])
+            for p in paths:
+                if p.kind != "ok":
+                    R.fail(f"{nm}/no-unexpected-raise", repr(p.value))
+                    continue
+                compare(R, f"{nm}/value-first-then-targets-left-to-right", p, p.value["res"], want,
+                        replay=dict(kind="src", src=_ORDER_SRC, expect="same-globals"))
+
+
+_ORDER_SRC = (
+    "log = []\nclass O: pass\no = O()\nd = {}\ndef f(n, v):\n    log.append(n)\n    return v\n"
+    "f('obj', o).x = f('val', 1)\nf('d', d)[f('k', 'k')] = f('v2', 2)\n"
+    "f('o2', o).y = f('d2', d)[f('k2', 2)] = z = f('v3', 3)\n")
+
+
+def _ren(x):
+    m = {"obj": "obj2", "idx": "idx2", ("id", "x"): ("id", "y"), ("id", "a"): ("id", "b")}
+    if isinstance(x, tuple):
+        if x in m:
+            return m[x]
+        return tuple(_ren(i) for i in x)
+    return m.get(x, x) if isinstance(x, str) else x
+
+
 GROUPS = {
-    "expr": g_expr, "if": g_if, "return": g_return, "functiondef": g_functiondef, "classdef": g_classdef,
+    "expr": g_expr, "assign:statement": g_assign_statement, "if": g_if, "return": g_return, "functiondef": g_functiondef, "classdef": g_classdef,
     "assign:get_result": c13.g_get_result, "assign:leaf_targets": c13.g_leaf_targets, "assign:tuple_list": c13.g_tuple_list,
     "augassign": c13.g_augassign, "canary": c13.g_canary,
 }
